@@ -20,6 +20,8 @@
 (*   "T" formatted, but followed by two surplus blank lines at the end of the  *)
 (*       file: unformatted like any other, the whole difference is a suffix   *)
 (*   "N" not UTF-8   "M" declares a module whose file is missing            *)
+(*   "G" declares, inside cfg_if!, a module whose file is missing (the arms of   *)
+(*       cfg_if! are resolved like any other declaration)                      *)
 (*   "A" declares a module with both x.rs and x/mod.rs                      *)
 (*   "W" formatted, but with CRLF line terminators (differs only under an     *)
 (*       explicit newline_style; `fl.nl` is "auto" or "unix")                 *)
@@ -45,7 +47,7 @@ CONSTANTS MaxRoots, MaxFiles,
           LocalCfgAborts  \* TRUE: model main::format's `load_config(..)?` as the code has it
 
 ParseFail == {"E", "P", "N", "R"}
-ResolveFail == {"M", "A", "C"}
+ResolveFail == {"M", "A", "C", "G"}
 (* what the code does with "D": find_mods_outside_of_ast swallows the parse  *)
 (* failure (`Err(..) => continue`); the error stays counted in the session   *)
 (* and fails the NEXT parse_file_as_module (`!psess.has_errors()`), if any.  *)
